@@ -6,7 +6,7 @@
     /\ (forall x, wfd c x = true -> fits c x = true -> esize c x = len (enc c x))
     /\ (forall bs x r r', dec c bs = Value x r -> fits c x = true -> dec c (enc c x ++ r') = Value x r'). *)
 From Coq Require Import ZArith List.
-From VB Require Import Serde.StreamDefs Serde.CodecSpec Serde.StreamProofs Serde.EntityDefs Serde.Theorems Serde.FitsProofs Serde.StoredDefs Serde.StoredTheorems Serde.FitsMerkle.
+From VB Require Import Gen.Consts Serde.StreamDefs Serde.CodecSpec Serde.StreamProofs Serde.EntityDefs Serde.Theorems Serde.FitsProofs Serde.StoredDefs Serde.StoredTheorems Serde.FitsMerkle Serde.Refuted Serde.Ids.
 Local Open Scope Z_scope.
 
 Theorem C11_single_be_int64 : c11_ok c_single_be64.
@@ -143,3 +143,39 @@ Print Assumptions C11_full_StoredBlockIndex_Alt.
 Theorem C11_full_MerklePath : c11_full c_merklepath.
 Proof. exact merklepath_full. Qed.
 Print Assumptions C11_full_MerklePath.
+
+(** Boundary statements of C11 that are FALSE for the code as it is; the witnesses are replayed on the
+    implementation by ./check C11 (keys C11:pubdata-max-size-6-short, C11:noncanonical-at-size-limit). *)
+Theorem C11_VbkTx_pubdata_max_size_refuted :
+  wfd c_pubdata pub_max = true /\ fits c_pubdata pub_max = true /\
+  len (enc c_pubdata pub_max) = MAX_PUBLICATIONDATA_SIZE + 6 /\
+  fits c_pub_in_vbktx pub_max = false /\
+  dec c_pub_in_vbktx (enc c_pub_in_vbktx pub_max) = Invalid.
+Proof. exact pubdata_max_size_refuted. Qed.
+Print Assumptions C11_VbkTx_pubdata_max_size_refuted.
+
+Theorem C11_reencode_at_size_limit_refuted :
+  (dec c_merklepath_raw mp0_short_raw = Value mp0 nil /\
+   dec c_merklepath_raw (enc c_merklepath_raw mp0) = Value mp0 nil /\
+   len (enc c_merklepath_raw mp0) = len mp0_short_raw + 4) /\
+  (forall limit, 0 <= limit -> limit + 4 < 2 ^ 31 -> forall payload, len payload = limit + 4 ->
+     dec (c_var_len 0 limit) (enc (c_var_len 0 limit) payload) = Invalid).
+Proof. exact (conj noncanonical_shorter_refuted limit_plus_4_rejected). Qed.
+Print Assumptions C11_reencode_at_size_limit_refuted.
+
+(** ids / hashes are functions of the raw encodings only (abstract hash functions) *)
+Theorem C11_ids_of_content : forall addr_norm sha256 sha256d progpow,
+  (forall a b, enc c_vbkblock_raw a = enc c_vbkblock_raw b -> vbkblock_hash progpow a = vbkblock_hash progpow b) /\
+  (forall a b, enc c_btcblock_raw a = enc c_btcblock_raw b -> btcblock_hash sha256d a = btcblock_hash sha256d b) /\
+  (forall a b, vbktx_raw addr_norm a = vbktx_raw addr_norm b -> vbktx_hash addr_norm sha256 a = vbktx_hash addr_norm sha256 b) /\
+  (forall a b, vbkpoptx_raw addr_norm a = vbkpoptx_raw addr_norm b ->
+               vbkpoptx_hash addr_norm sha256 a = vbkpoptx_hash addr_norm sha256 b) /\
+  (forall a b, vbktx_raw addr_norm (atv_tx a) = vbktx_raw addr_norm (atv_tx b) ->
+               enc c_vbkblock_raw (atv_block a) = enc c_vbkblock_raw (atv_block b) ->
+               atv_id addr_norm sha256 progpow a = atv_id addr_norm sha256 progpow b) /\
+  (forall a b, ptx_btctx (vtb_tx a) = ptx_btctx (vtb_tx b) ->
+               enc c_btcblock_raw (ptx_bop (vtb_tx a)) = enc c_btcblock_raw (ptx_bop (vtb_tx b)) ->
+               enc c_vbkblock_raw (vtb_block a) = enc c_vbkblock_raw (vtb_block b) ->
+               vtb_id sha256 sha256d progpow a = vtb_id sha256 sha256d progpow b).
+Proof. exact ids_of_content. Qed.
+Print Assumptions C11_ids_of_content.
